@@ -36,7 +36,7 @@ func (monC06) TaskEnd(s *Sim, t *Task) {
 			s.Violate("C06", "sync-crashed", panicSite(t.Stack), "%s (canary) crashed (%v): neither Canary-Failed nor Canary-Paused can be decided for this canary", t.Label(), t.Panic)
 		}
 	}
-	if t.Ctrl != CtrlERS || !t.Clean() {
+	if t.Ctrl != CtrlERS || !t.CleanButPodPatches() {
 		return
 	}
 	v := t.View()
